@@ -167,7 +167,7 @@ func TestC11Rapid(t *testing.T) {
 				cur, _ = v.(xref.NodeSet)
 			}
 			seq := &xast.SeqStep{}
-			n := 2 + rapid.IntRange(0, 1).Draw(rt, "nalts")
+			n := 1 + g.CountOf(2, "nalts")
 			for i := 0; i < n; i++ {
 				seq.Alts = append(seq.Alts, g.Step(cur))
 			}
@@ -181,6 +181,12 @@ func TestC11Rapid(t *testing.T) {
 				e = &xast.Bin{Op: "|", L: operand(), R: &xast.Bin{Op: "|", L: operand(), R: operand()}} // a | (b | c)
 			} else {
 				e = &xast.Bin{Op: "|", L: &xast.Bin{Op: "|", L: operand(), R: operand()}, R: operand()}
+			}
+		case 5:
+			// a union of many operands: a | b | c | ... (up to 17)
+			e = operand()
+			for i, n := 0, g.CountOf(3, "noperands"); i < n; i++ {
+				e = &xast.Bin{Op: "|", L: e, R: operand()}
 			}
 		default:
 			e = &xast.Bin{Op: "|", L: operand(), R: operand()}
